@@ -128,6 +128,9 @@ def validity_residual(cname, a):
     if cname == "UnitQuaternion":
         return abs(float(np.linalg.norm(a)) - 1.0)
     n = {"SO2": 2, "SE2": 2, "SO3": 3, "SE3": 3}[cname]
+    want = (n + 1, n + 1) if cname in ("SE2", "SE3") else (n, n)
+    if a.shape != want:                      # a value of the wrong size is not a member, whatever its blocks look like
+        return float("inf")
     R = a[:n, :n]
     r = float(np.max(np.abs(R @ R.T - np.eye(n))))
     r = max(r, abs(float(np.linalg.det(R)) - 1.0))
